@@ -3,6 +3,7 @@ package sim
 import (
 	"fmt"
 	"path/filepath"
+	"regexp"
 	"sort"
 	"strings"
 	"testing"
@@ -289,21 +290,53 @@ func genC08(seed uint64) (*Scenario, *c08Meta) {
 			g.steps = append(g.steps, c08Step{Kind: "stmt", Src: g.okStmt()})
 		}
 	}
+	rv := Sub(seed, "c08-variants")
+	if rv.Bool(0.12) {
+		// a COMMIT that fails while it writes (the device is full at the k-th write of the
+		// session) and is issued again: what the failed attempt had written is not part of
+		// what the second one commits
+		g.dump()
+		g.steps = append(g.steps, c08Step{Kind: "stmt", Src: "COMMIT;", Fails: true})
+		sc.Torn = &TornSpec{Proc: 0, NthWrite: rv.Pick(1, 1, 2, 3), Frac: rv.Float(), FailErrno: rv.PickS("ENOSPC", "EIO")}
+	}
 	g.dump()
 	g.steps = append(g.steps, c08Step{Kind: "stmt", Src: "COMMIT;"})
+	stdinMode := f1 == "csv" && rv.Bool(0.12)
+	if stdinMode {
+		// the second table is standard input (a temporary table csvq declares itself):
+		// the statements written for t1 go to STDIN, the file t1.csv becomes a bystander
+		re := regexp.MustCompile(`\bt1\b`)
+		for i := range g.steps {
+			g.steps[i].Src = re.ReplaceAllString(g.steps[i].Src, "STDIN")
+			for k, tb := range g.steps[i].Tables {
+				if tb == "t1" {
+					g.steps[i].Tables[k] = "STDIN"
+				}
+			}
+		}
+		for i, tb := range g.tables {
+			if tb == "t1" {
+				g.tables[i] = "STDIN"
+			}
+		}
+	}
 	m.Steps = g.steps
 	for t := range g.reformatted {
 		m.Reformat = append(m.Reformat, t)
 	}
 	sort.Strings(m.Reformat)
 	for _, t := range g.tables {
-		if t != "tv" {
+		if t != "tv" && t != "STDIN" {
 			m.Final = append(m.Final, t)
 		}
 	}
 	sort.Strings(m.Final)
 	cpu := r.Pick(1, 1, 2, 4)
 	sc.Procs = []ProcSpec{{CPU: cpu, WaitTimeoutS: 10.0000001, RetryDelayNs: 10001009, Quiet: true, Format: "CSV", Shell: true}}
+	if stdinMode {
+		sc.Procs[0].HasStdin = true
+		sc.Procs[0].Stdin = c01Table(g.rows, 2)
+	}
 	if m.Fixed {
 		sc.Procs[0].Flags = map[string]string{"IMPORT_FORMAT": "FIXED"}
 	}
@@ -386,7 +419,10 @@ func (c08) Eval(t *testing.T, c *Case, dec func(int) *Decider) *Outcome {
 	const prop = "C08"
 	if !meta.Injected {
 		meta.Injected = true
-		if Sub(c.Seed, "inj").Bool(0.4) {
+		// (no cancellations in sessions that read standard input: a cancelled first load has
+		// consumed the stream, and the table is empty for the rest of the session - a pipe
+		// cannot be read twice)
+		if Sub(c.Seed, "inj").Bool(0.4) && !sc.Procs[0].HasStdin {
 			base := *sc
 			base.Cancels = nil
 			pre, _ := Execute(t, &base, NewRecorder(hashLabel(c.Seed, "pre")))
@@ -506,6 +542,11 @@ func (c08) Eval(t *testing.T, c *Case, dec func(int) *Decider) *Outcome {
 	// the final COMMIT writes exactly the last dump
 	commitIdx := len(meta.Steps) - 1
 	if e, msg := isErr(commitIdx); e {
+		if sc.Torn != nil && strings.Contains(msg, "write temp") {
+			// the injected device error hit the last COMMIT instead of the one before it
+			o.Stats.probe("injected-write-error-hit-final-commit")
+			return o
+		}
 		headerless := false
 		for _, f := range meta.Files {
 			if e := filepath.Ext(f); e == ".ltsv" || e == ".json" || e == ".jsonl" {
@@ -623,6 +664,7 @@ func (c08) Eval(t *testing.T, c *Case, dec func(int) *Decider) *Outcome {
 		alt := *sc
 		alt.Procs = append([]ProcSpec{}, sc.Procs...)
 		alt.Cancels = nil
+		alt.Torn = nil
 		var am c08Meta
 		am = meta
 		am.Steps = nil
